@@ -42,6 +42,7 @@ def run_with_frame(fn):
 def gen_case(rng, supervised):
   d = int(rng.integers(2, 5))
   X, y = gen.dataset(rng, d=d, n_classes=int(rng.integers(2, 4)), bits=5, per_class=int(rng.integers(5, 18)))
+  # raw features of any magnitude (an exact power of two keeps the grid): the multipliers scale like 1 / distance^2
   prior_kind = str(rng.choice(['identity', 'covariance', 'random', 'array']))
   if prior_kind == 'array':
     A = rng.normal(size=(d, d))
@@ -49,6 +50,11 @@ def gen_case(rng, supervised):
   else:
     prior = prior_kind
   prior_arg = prior.copy() if isinstance(prior, np.ndarray) else prior      # what the estimator gets
+  # raw features of any magnitude (an exact power of two keeps the grid): the multipliers scale like 1 / distance^2.
+  # (with an O(1) array / random prior and data of magnitude 2^17 the optimum has a condition number beyond double
+  # precision - the solver legitimately loses definiteness -, so those priors keep unit-scale data)
+  scale = float(2.0 ** int(rng.choice([0, 0, 0, -7, 9, 17, 22]))) if prior_kind in ('identity', 'covariance') else 1.0
+  X = X * scale
   gamma = float(rng.choice([0.25, 1.0, 4.0, 64.0]))       # the stated quantifier is gamma in (0, inf)
   mode = str(rng.choice(['converged', 'few_iterations', 'prior_feasible']))
   max_iter = int(rng.integers(1, 6)) if mode == 'few_iterations' else 3000
@@ -63,12 +69,12 @@ def gen_case(rng, supervised):
     idx, lab = gen.pairs_from(rng, X, y, int(rng.integers(6, 16)))
     pairs = X[idx]
   if mode == 'prior_feasible':
-    bounds = np.array([1e6, 1e-6])        # every similar pair is closer than 1e6, every dissimilar farther than 1e-6
+    bounds = np.array([1e6, 1e-6]) * scale * scale      # every similar pair is closer than the upper, every dissimilar farther than the lower bound
   elif rng.random() < 0.8 or len(X) < 30:
     # explicit bounds; the default (5th / 95th percentile of ALL pairwise distances, zero diagonal included) is only
     # used on sets of >= 30 points, where the 5th percentile is not the diagonal's zero
     dd = np.sqrt(((pairs[:, 0] - pairs[:, 1]) ** 2).sum(1))
-    bounds = np.array([float(np.round(np.percentile(dd, 30) * 8) / 8 + 0.125), float(np.round(np.percentile(dd, 70) * 8) / 8 + 0.25)])
+    bounds = scale * np.array([float(np.round(np.percentile(dd, 30) / scale * 8) / 8 + 0.125), float(np.round(np.percentile(dd, 70) / scale * 8) / 8 + 0.25)])
   ev = {'ev': 'ItmlFit', 'supervised': bool(supervised), 'mode': mode, 'prior_kind': prior_kind, 'exc': '',
         'gamma_inf': bool(np.isinf(gamma)), 'gamma': dy(0.0 if np.isinf(gamma) else gamma), 'max_iter': max_iter,
         'tight_tol': bool(tol <= 1e-9), 'n_iter': 0, 'L': [], 'M0': [], 'P': [], 'P0': [], 'chol': [], 'v': [], 'y': [],
